@@ -29,6 +29,7 @@ Holds(c, h, k) ==
     [] c = "WsgiCloseOnce"  -> WsgiCloseOnce(h, k)
     [] c = "ReadBound"      -> ReadBound(h, k)
     [] c = "TooLongRefused" -> TooLongRefused(h, k)
+    [] c = "WithinLimitRead" -> WithinLimitRead(h, k)
     [] c = "NoFnOnInFault"  -> NoFnOnInFault(h, k)
     [] c = "BadReqIsClient" -> BadReqIsClient(h, k)
     [] c = "StatusTable"    -> StatusTable(h, k)
